@@ -47,6 +47,13 @@ def gen_patterns(rng, quick):
         if len(s) > 160:
             continue
         out.append(s)
+        # the four non-ASCII code points Python's re.IGNORECASE identifies with i / s / k, in place of those letters
+        spots = [i for i, ch in enumerate(s) if ch in 'iIsSkK']
+        if spots and rng.random() < 0.5:
+            t = list(s)
+            for i in rng.sample(spots, min(len(spots), rng.choice([1, 1, 2]))):
+                t[i] = rng.choice(FOLD_TWINS[t[i].lower()])
+            out.append(''.join(t))
         for _ in range(3):
             cut = rng.randint(0, len(s))
             out.append(s[:cut])
@@ -58,10 +65,17 @@ def gen_patterns(rng, quick):
         for ctx in ['%s', '#%s', '.%s', '[%s]', '[a=%s]', '[a="%s"]', ":lang(%s)", ':-soup-contains("%s")', 'a%s', ':not(%s)', '%s|a',
                     ':--%s', '[a=%s', '"%s']:
             out.append(ctx % e)
+    for tw in ('\u0130', '\u0131', '\u017f', '\u212a'):
+        out += [f'[a=b {tw}]', f'[a="b"{tw}]', f'[a=b{tw}]', f':{tw}s(a)', f':nth-child(2n+1 {tw}f a)', f':nth-la{tw}t-child(2)', f':d{tw}r(ltr)',
+                f':dir(r{tw}l)', f':lang({tw})', f'[{tw}=a {tw}]', f':nth-child({tw})', f':{tw}', f':not({tw})', f':-soup-conta{tw}ns(a)',
+                f':hover{tw}', f':lin{tw}', f':chec{tw}ed']
     out += [':nth-child(' + '1' * 5000 + ')', ':nth-child(n+' + '1' * 4301 + ')', ':nth-last-of-type(' + '9' * 4300 + 'n - ' + '7' * 4400 + ')',
             '[a="' + 'a' * 50, ':lang(' + 'aa,' * 30, '/*' + 'x' * 40, ':is(' * 30, ')' * 5, ':nth-child(' + '9' * 400 + 'n)',
             'a' * 3000, ':nth-child(2n+' + '9' * 300 + ')']
     return out
+
+
+FOLD_TWINS = {'i': ['\u0130', '\u0131'], 's': ['\u017f'], 'k': ['\u212a']}
 
 
 def gen_customs(rng, quick):
